@@ -27,6 +27,9 @@ def cases(tier: str):
             for r in rets:
                 yield dict(p, ret=r, configs=CONFIGS, flavours=[False, True], explore=True)
         idx += 1
+    for body, ret in noncommutative_programs():
+        yield dict(name="main", params=[["x", "<nodefault>"]], body=body, ret=ret, subs=[], env=[], configs=["mc1", "mc3"], flavours=[False, True],
+                   explore=False, nested=True)
     for body, ret in wide_programs():
         for config in ("mc3", "res_rot"):
             yield dict(name="main", params=[["x", "<nodefault>"]], body=body, ret=ret, subs=[], env=[], configs=[config], flavours=[False, True],
@@ -74,6 +77,27 @@ def wide_programs():
         ["list", [v("d"), v("e")]]
     yield [_call("pair_u", [X], ["a", "a2"]), _call("k0", [], "b"), _call("mkd", [v("b")], "c"), _call("add", [v("a2")], "d", kwargs={"y": v("c", "l", 0)}),
            {"k": "op", "op": "+", "a": v("a"), "b": v("b"), "out": "e"}], ["tuple", [v("d"), v("e")]]
+
+
+def noncommutative_programs():
+    """operators whose operands do not commute (str, tuple, list-valued dict entries) with the constant on either side"""
+    X = ["p", "x"]
+
+    def v(n, *path):
+        return ["v", n, list(path)]
+
+    def op(o, a, b, out):
+        return {"k": "op", "op": o, "a": a, "b": b, "out": out}
+
+    yield [_call("strf", [X], "s"), op("+", ["c", "pre-"], v("s"), "a"), op("+", v("s"), ["c", "-post"], "b"), op("*", ["c", 2], v("s"), "c"),
+           op("+", v("a"), v("b"), "d")], ["tuple", [v("a"), v("b"), v("c"), v("d")]]
+    yield [_call("pair", [X], "t"), op("+", ["c", (9,)], v("t"), "a"), op("+", v("t"), ["c", (9,)], "b"), op("*", ["c", 2], v("t"), "c")], \
+        ["list", [v("a"), v("b"), v("c")]]
+    yield [_call("mkd", [X], "m"), op("+", ["c", [7]], v("m", "l"), "a"), op("+", v("m", "l"), ["c", [7]], "b"),
+           op("-", ["c", 10], v("m", "k"), "c"), op("//", ["c", 7], ["c", 2], "d") if False else op("%", ["c", 7], v("m", "l", 1), "d")], \
+        ["dict", {"a": v("a"), "b": v("b"), "c": v("c"), "d": v("d")}]
+    yield [_call("strf", [X], "s"), _call("strf", [["c", 1]], "u"), op("+", v("s"), v("u"), "a"), op("+", v("u"), v("s"), "b"),
+           op("<", ["c", "s0"], v("s"), "c"), op(">=", ["c", "s1"], v("s"), "d")], ["tuple", [v("a"), v("b"), v("c"), v("d")]]
 
 
 def run_one(acc, c):
